@@ -178,6 +178,18 @@ class RustFile:
             raise ExtractError('lost anchor: %s /%s/ matches %d lines in %s' % (what, rx, len(hits), self.path))
         return hits[0]
 
+    def first_line_from(self, rx, lo, hi, what):
+        """offset of the start of the first line at or after offset lo (and before hi) whose text matches rx"""
+        pat = re.compile(rx)
+        pos = line_start(self.masked, lo)
+        while pos < hi:
+            nl = self.text.find('\n', pos)
+            nl = len(self.text) if nl < 0 else nl
+            if pat.search(self.text[pos:nl]):
+                return pos
+            pos = nl + 1
+        raise ExtractError('lost anchor: %s /%s/ matches 0 lines after the start anchor in %s' % (what, rx, self.path))
+
     def stmt_end(self, start, hi):
         """exclusive end offset of the statement starting at `start` (first non-space char)."""
         m = self.masked
